@@ -375,7 +375,13 @@ impl VersionManager {
                 .join(format!("{}_{}", table_id, rowset_id));
             info!("vacuum {}_{}", table_id, rowset_id);
             if !self.storage_options.disable_all_disk_operation {
-                tokio::fs::remove_dir_all(path).await?;
+                // A RowSet can be scheduled for deletion twice (e.g. a DROP TABLE and a
+                // compaction of the same table both commit its removal): the second time the
+                // directory is already gone, which must not stop the vacuum task.
+                match tokio::fs::remove_dir_all(path).await {
+                    Err(e) if e.kind() == std::io::ErrorKind::NotFound => {}
+                    r => r?,
+                }
             }
         }
 
